@@ -68,6 +68,8 @@ def numbers(l, try_parse=False, text_is_zero=False):
 def parse_number(string):
     num = to_number(string)
     if isinstance(num, number_types):
+        if isinstance(num, float) and (num != num or num in (float('inf'), float('-inf'))):
+            return error.VALUE  # 'nan' / 'inf' text (or a non-finite float) is not a number
         return num
     if isinstance(num, error.XLError):
         return num
